@@ -886,8 +886,18 @@ impl Parser {
                     match self.next_lexem() {
                         Some(Lexem::Comma) => {}
                         Some(Lexem::RawString(ref ordering_field)) => {
-                            let actual_field = match ordering_field.parse::<usize>() {
-                                Ok(idx) => match idx.checked_sub(1).and_then(|i| fields.get(i)) {
+                            // a number is a column position unless it begins an expression (`1 - size`)
+                            let position = match ordering_field.parse::<usize>() {
+                                Ok(idx) => {
+                                    let begins_expr =
+                                        matches!(self.next_lexem(), Some(Lexem::ArithmeticOperator(_)));
+                                    self.drop_lexem();
+                                    if begins_expr { None } else { Some(idx) }
+                                }
+                                _ => None,
+                            };
+                            let actual_field = match position {
+                                Some(idx) => match idx.checked_sub(1).and_then(|i| fields.get(i)) {
                                     Some(field) => field.clone(),
                                     None => return Err(String::from("Invalid ORDER BY position")),
                                 },
@@ -900,6 +910,15 @@ impl Parser {
                                 }
                             };
                             order_by_fields.push(actual_field);
+                            order_by_directions.push(true);
+                        }
+                        Some(Lexem::Open) | Some(Lexem::CurlyOpen) | Some(Lexem::ArithmeticOperator(_)) => {
+                            // a key that starts with a bracket or a sign: `(size + 1) * 2`, `-size`
+                            self.drop_lexem();
+                            match self.parse_expr()? {
+                                Some(field) => order_by_fields.push(field),
+                                None => return Err(String::from("Error parsing ORDER BY")),
+                            }
                             order_by_directions.push(true);
                         }
                         Some(Lexem::DescendingOrder) => {
